@@ -115,6 +115,8 @@ def str_natives():
     nat = {
         "<str as Index>::index": index, "str::chars": chars, "<Chars as Iterator>::next": chars_next, "str::find": find,
         "str::len": lambda m, a: len(_t(a[0]).encode()),
+        "str::as_bytes": lambda m, a: SliceRef(list(_t(a[0]).encode())),
+        "str::split_at": lambda m, a: Tuple([RStr(_t(a[0]).encode()[:a[1]].decode()), RStr(_t(a[0]).encode()[a[1]:].decode())]),
         "str::is_char_boundary": lambda m, a: a[1] == len(_t(a[0]).encode()) or (a[1] < len(_t(a[0]).encode()) and (_t(a[0]).encode()[a[1]] & 0xC0) != 0x80),
         "char::len_utf8": lambda m, a: len(chr(deref(a[0])).encode()),
         "char::is_digit": lambda m, a: chr(deref(a[0])) in "0123456789abcdefghijklmnopqrstuvwxyz"[:a[1]] or chr(deref(a[0])).lower() in "0123456789abcdefghijklmnopqrstuvwxyz"[10:a[1]],
